@@ -509,6 +509,15 @@ func (vc *VC) evalTerm(env *Env, e CExpr) Term {
 			return Term{S: sel(h.S, l.Ref), Sort: arrSortElem(h.Sort)}
 		}
 		h := vc.heapGet(env.cur, l.Key)
+		if !strings.Contains(l.Ref, "!b") && !strings.Contains(l.Ref, "scratch!") {
+			// heap closure facts for reference-typed fields read by a contract (ground terms only)
+			switch l.T.Underlying().(type) {
+			case *types.Pointer, *types.Map, *types.Interface, *types.Chan, *types.Slice:
+				ref := l.Ref
+				vc.assumeAllocated(env.cur, l.T, sel(h.S, ref))
+				vc.closedFact(env.cur, l.Key, l.T, func(b string) string { return sel(b, ref) })
+			}
+		}
 		return Term{S: sel(h.S, l.Ref), Sort: vc.sortOf(l.T), T: l.T}
 	case CIndex:
 		x := vc.evalTerm(env, t.X)
@@ -521,7 +530,7 @@ func (vc *VC) evalTerm(env *Env, e CExpr) Term {
 			et := x.T.Underlying().(*types.Slice).Elem()
 			key := vc.memKey(et)
 			i = vc.coerceTo(i, SInt)
-			return Term{S: sel(sel(vc.heapGet(env.cur, key).S, "(sl.base "+x.S+")"), "(+ (sl.off "+x.S+") "+i.S+")"), Sort: vc.sortOf(et), T: et}
+			return Term{S: app(vc.elemFn(vc.sortOf(et)), vc.heapGet(env.cur, key).S, x.S, i.S), Sort: vc.sortOf(et), T: et}
 		case x.Sort == SStr:
 			i = vc.coerceTo(i, SInt)
 			return Term{S: "(s_at " + x.S + " " + i.S + ")", Sort: bvSort(8), T: types.Typ[types.Uint8]}
@@ -697,10 +706,16 @@ func (vc *VC) evalBin(env *Env, t CBin) Term {
 		if bv {
 			return Term{S: "(bvudiv " + a.S + " " + b.S + ")", Sort: a.Sort, T: a.T}
 		}
+		if k, ok := constIntOf(b.S); ok && k > 0 {
+			return Term{S: fmt.Sprintf("(ite (>= %s 0) (div %s %d) (- (div (- %s) %d)))", a.S, a.S, k, a.S, k), Sort: a.Sort, T: a.T}
+		}
 		return Term{S: "(go_div " + a.S + " " + b.S + ")", Sort: a.Sort, T: a.T}
 	case "%":
 		if bv {
 			return Term{S: "(bvurem " + a.S + " " + b.S + ")", Sort: a.Sort, T: a.T}
+		}
+		if k, ok := constIntOf(b.S); ok && k > 0 {
+			return Term{S: fmt.Sprintf("(ite (>= %s 0) (mod %s %d) (- (mod (- %s) %d)))", a.S, a.S, k, a.S, k), Sort: a.Sort, T: a.T}
 		}
 		return Term{S: "(go_mod " + a.S + " " + b.S + ")", Sort: a.Sort, T: a.T}
 	case "&", "|", "^", "<<", ">>":
@@ -784,7 +799,7 @@ func (vc *VC) evalCall(env *Env, t CCall) Term {
 		if x.Sort == SSlice {
 			ref = "(sl.base " + x.S + ")"
 		}
-		return tBool(fmt.Sprintf("(and (>= %s %s) (= (refkind %s) 0))", ref, oa.S, ref))
+		return tBool(fmt.Sprintf("(and (>= %s %s) (= (refkind %s) 0) (= (rootof %s) %s))", ref, oa.S, ref, ref, ref))
 	case "allocated":
 		x := vc.evalTerm(env, t.Args[0])
 		oa := vc.heapGet(env.cur, vc.allocKey())
@@ -830,6 +845,17 @@ func (vc *VC) evalCall(env *Env, t CCall) Term {
 			vc.unsup("typetag: unknown type %s", id.Name)
 		}
 		return tInt(fmt.Sprint(vc.eng.typeTag(tt)))
+	}
+	// contract macro (package-level `define`)
+	if m := vc.eng.macro(env, t.Fn); m != nil {
+		if len(m.Params) != len(t.Args) {
+			vc.unsup("macro %s expects %d args", t.Fn, len(m.Params))
+		}
+		sub := map[string]CExpr{}
+		for i, p := range m.Params {
+			sub[p] = t.Args[i]
+		}
+		return vc.evalTerm(env, substCExpr(m.Body, sub))
 	}
 	// spec function
 	if sig, ok := vc.eng.specSigs[t.Fn]; ok {
@@ -900,3 +926,69 @@ func (vc *VC) seqEq(env *Env, a, b Term) string {
 }
 
 var _ = constant.MakeBool
+
+func (e *Engine) macro(env *Env, name string) *Macro {
+	if tp := env.typesPkg(); tp != nil {
+		if ps, ok := e.specs[tp.Path()]; ok {
+			if m, ok := ps.Macros[name]; ok {
+				return m
+			}
+		}
+	}
+	if i := strings.Index(name, "."); i >= 0 {
+		if tp := env.lookupPkg(name[:i]); tp != nil {
+			if ps, ok := e.specs[tp.Path()]; ok {
+				if m, ok := ps.Macros[name[i+1:]]; ok {
+					return m
+				}
+			}
+		}
+	}
+	if m, ok := e.trusted.Macros[name]; ok {
+		return m
+	}
+	return nil
+}
+
+func substCExpr(e CExpr, sub map[string]CExpr) CExpr {
+	switch t := e.(type) {
+	case CIdent:
+		if r, ok := sub[t.Name]; ok {
+			return r
+		}
+		return t
+	case CField:
+		return CField{substCExpr(t.X, sub), t.Name}
+	case CIndex:
+		return CIndex{substCExpr(t.X, sub), substCExpr(t.I, sub)}
+	case CSlice:
+		var lo, hi CExpr
+		if t.Lo != nil {
+			lo = substCExpr(t.Lo, sub)
+		}
+		if t.Hi != nil {
+			hi = substCExpr(t.Hi, sub)
+		}
+		return CSlice{substCExpr(t.X, sub), lo, hi}
+	case CCall:
+		var args []CExpr
+		for _, a := range t.Args {
+			args = append(args, substCExpr(a, sub))
+		}
+		return CCall{t.Fn, args}
+	case CUn:
+		return CUn{t.Op, substCExpr(t.X, sub)}
+	case CBin:
+		return CBin{t.Op, substCExpr(t.L, sub), substCExpr(t.R, sub)}
+	case CQuant:
+		inner := map[string]CExpr{}
+		for k, v := range sub {
+			inner[k] = v
+		}
+		for _, v := range t.Vars {
+			delete(inner, v.Name)
+		}
+		return CQuant{t.Forall, t.Vars, substCExpr(t.Body, inner)}
+	}
+	return e
+}
